@@ -194,6 +194,24 @@ PROPS["C14"] = {
     "assumptions": H3_ASSUME,
 }
 
+H2_ASSUME = [
+    "the state machine runs on never-started servers whose id is not a replica of any partition: apply-time side effects that need NATS (becoming leader/follower, group liveness timers) are not exercised here",
+    "commit order is given: one committed sequence per run, every node applies exactly that sequence (what Raft guarantees); Raft itself is not under test",
+    "a crash loses no file data (no disk-fault model in this engine): restart-stability is checked against scheduling and replay splits, not torn writes",
+]
+
+PROPS["C06"] = {
+    "engine": "h3",
+    "level": "exploration",
+    "budget": {"quick": 45, "thorough": 600},
+    "runs_per_proc": 40,
+    "technique": "deterministic simulation of 2-3 metadata state machines (real Server.Apply/Snapshot/Restore/finishedRecovery over a real raft-boltdb store and a hand-driven Raft member) applying one committed sequence of generated valid operations; seeded scheduling of applies, of the goroutines apply starts, of snapshot Persist tasks running concurrently with later applies, and crash/restart from any persisted snapshot (or none) with any commit index known at the first replayed entry; final states compared with a reference node that applied everything live",
+    "level_text": "seeded exploration over operation histories (create/delete/recreate, pause/resume, read-only, ISR shrink/expand, leader change, group create/join/leave/expire/coordinator change) x snapshot points x restart points x replay-range splits x schedules; oracle: metadata digest equal to the live reference, stream set equal to what the committed sequence leaves, marker messages of current stream incarnations survive restarts, no directory of a deleted stream remains",
+    "level_note": "operations are generated against the reference node's state and filtered by the controller's own precondition functions, so only sequences a controller could commit are explored; stream-level resumeAll and broker load counters are not part of the compared state (the statement does not list them)",
+    "rule": "programs of 8-38 (thorough -98) generated steps on 2-3 nodes; distinct = distinct event-log hash; non-trivial = >=5 committed operations",
+    "assumptions": H2_ASSUME,
+}
+
 NOT_APPLICABLE = [
     {"property_id": pid, "reason": "check not built yet in this round (engine under construction); see DESIGN.md section 9 build order"}
     for pid in ["C%02d" % i for i in range(1, 20)] if pid not in PROPS
